@@ -594,7 +594,16 @@ func validateAndSetValue(kind reflect.Kind, value reflect.Value, str string,
 		return err
 	}
 
-	if err := validateValueRange(v, opts); err != nil {
+	// the range is declared on the supplied number: a float32 field must not be tested
+	// after rounding, 0.1 rounds to 0.100000001 and would pass range=(0.1:1].
+	rangeValue := v
+	if kind == reflect.Float32 {
+		if fv, err := strconv.ParseFloat(str, 64); err == nil {
+			rangeValue = fv
+		}
+	}
+
+	if err := validateValueRange(rangeValue, opts); err != nil {
 		return err
 	}
 
